@@ -77,7 +77,10 @@
 use std::io::{Error, ErrorKind};
 use std::os::unix::io::{AsRawFd, IntoRawFd, RawFd};
 
+#[cfg(not(sighook_verif))]
 use libc::{self, c_int};
+#[cfg(sighook_verif)]
+use signal_hook_registry::verif_shim::libc_facade::{self as libc, c_int};
 
 use crate::SigId;
 
